@@ -439,7 +439,8 @@ class Gauss:
             xis, etas, weights = Gauss._Triangle(nPg)  # type: ignore [assignment]
 
         elif elemType == ElemType.TRI10:
-            nPg = 6
+            # the mass integrand NᵀN needs a richer rule than the stiffness one
+            nPg = 12 if matrixType == MatrixType.mass else 6
             xis, etas, weights = Gauss._Triangle(nPg)  # type: ignore [assignment]
 
         elif elemType == ElemType.TRI15:
@@ -472,7 +473,8 @@ class Gauss:
             x, y, z, weights = Gauss._Tetrahedron(nPg)  # type: ignore [assignment]
 
         elif elemType == ElemType.TETRA10:
-            nPg = 4
+            # the mass integrand NᵀN needs a richer rule than the stiffness one
+            nPg = 15 if matrixType == MatrixType.mass else 4
             x, y, z, weights = Gauss._Tetrahedron(nPg)  # type: ignore [assignment]
 
         elif elemType == ElemType.HEXA8:
@@ -492,7 +494,8 @@ class Gauss:
             x, y, z, weights = Gauss._Prism(nPg)  # type: ignore [assignment]
 
         elif elemType == ElemType.PRISM15:
-            nPg = 6
+            # the mass integrand NᵀN needs a richer rule than the stiffness one
+            nPg = 21 if matrixType == MatrixType.mass else 6
             x, y, z, weights = Gauss._Prism(nPg)  # type: ignore [assignment]
 
         elif elemType == ElemType.PRISM18:
